@@ -2,6 +2,7 @@ package main
 
 import (
 	"fmt"
+	"go/constant"
 	"go/token"
 	"go/types"
 	"strings"
@@ -290,6 +291,76 @@ func runC05(c *Ctx) {
 	c.Rule("C05.D5", "PROVENANCE+ALWAYS-WITH", "the double-sign penalty is validator tokens × params.PenaltyFractionForDoubleSign / 100; doPenalize credits params.PenaltyTo with the total taken; in takePenalty every amount subtracted from a withdraw record is handed to updateCounter, which accumulates exactly what it subtracts")
 	c.Min(4)
 	c05D5(c, w, pds, pen)
+
+	// ------------------------------------------------------------ D7
+	c.Rule("C05.D7", "GATE", "an honest validator's vote marks survive a restart: the function NewVoteDB feeds the persisted records to replaces the restored (round, index) only by a newer record, ignores only older ones and counts only records of the same context (the lexicographic comparison) — otherwise a protocol-following node signs a second vote of the same kind after a restart and is slashable")
+	c.Min(1)
+	{
+		newDB := w.Fn(uconPkg, "", "NewVoteDB")
+		c.sawFunc(fname(newDB))
+		if restore := findVoteRestore(newDB); restore == nil {
+			c.Undecided("consensus/ucon.NewVoteDB$1#restore-decision-is-lexicographic", newDB.Pos(), "the restore function was not found")
+		} else {
+			voteRestoreDecision(c, w, restore, w.Field(uconPkg, "VoteDB", "round"), w.Field(uconPkg, "VoteDB", "roundIndex"), w.Field(uconPkg, "VoteDB", "mark"), w.FuncObj(uconPkg, "", "VerifySignature"))
+		}
+	}
+
+	// ------------------------------------------------------------ D8
+	c.Rule("C05.D8", "SIBLINGS", "writer and reader of the evidence's vote kind agree: consensus/ucon fills EvidenceDoubleSignV5.VoteType with its own VoteType value, so every constant package staking compares that field with is the value of a ucon vote kind, and the constant that selects the certificate look-back validator set is ucon.Certificate — otherwise the signer index is resolved in the wrong validator set and real equivocation goes unpunished (or the wrong validator is looked up)")
+	c.Min(1)
+	{
+		vtF := w.Field("staking", "EvidenceDoubleSignV5", "VoteType")
+		kindsU := map[int64]string{}
+		for _, n := range []string{"Prevote", "Precommit", "NextIndex", "Certificate"} {
+			v, _ := constant.Int64Val(constant.ToInt(constOf(w, uconPkg, n)))
+			kindsU[v] = n
+		}
+		certV, _ := constant.Int64Val(constant.ToInt(constOf(w, uconPkg, "Certificate")))
+		n := 0
+		for _, fn := range w.FuncsIn("staking") {
+			if strings.HasSuffix(w.fileOf(fn.Pos()), "_test.go") {
+				continue
+			}
+			for _, b := range fn.Blocks {
+				for _, in := range b.Instrs {
+					bo, ok := in.(*ssa.BinOp)
+					if !ok || (bo.Op != token.EQL && bo.Op != token.NEQ) {
+						continue
+					}
+					var cst ssa.Value
+					if f, _ := loadedField(stripConv(bo.X)); f == vtF {
+						cst = bo.Y
+					} else if f, _ := loadedField(stripConv(bo.Y)); f == vtF {
+						cst = bo.X
+					} else {
+						continue
+					}
+					kv, isC := constInt(cst)
+					if !isC {
+						continue
+					}
+					n++
+					c.sites++
+					c.sawFunc(fname(fn))
+					// does the comparison choose the certificate look-back set?
+					selectsCert := false
+					for _, r := range *bo.Referrers() {
+						if ci, isCall := r.(ssa.CallInstruction); isCall {
+							if o := calleeObj(ci); o != nil && strings.Contains(o.Name(), "LookBack") {
+								selectsCert = true
+							}
+						}
+					}
+					name, isKind := kindsU[kv]
+					ok2 := isKind && (!selectsCert || kv == certV)
+					c.Check(fmt.Sprintf("%s#evidence-vote-kind-constant-%d", fname(fn), n), bo.Pos(), ok2, ifelse(ok2, fmt.Sprintf("compares with %d = ucon.%s", kv, name), fmt.Sprintf("the evidence's vote kind is compared with %d, which %s: evidence of a double certificate vote is checked against the wrong look-back validator set, the signer index names another validator and the evidence is dropped", kv, ifelse(isKind, "is ucon."+name+" and not ucon.Certificate although it selects the certificate look-back set", "is not the value of any ucon vote kind"))))
+				}
+			}
+		}
+		if n == 0 {
+			c.Undecided("staking#evidence-vote-kind-constants", token.NoPos, "no comparison of EvidenceDoubleSignV5.VoteType with a constant found in package staking")
+		}
+	}
 
 	// ------------------------------------------------------------ D6
 	c.Rule("C05.D6", "SIBLINGS", "the payload a vote signs identifies the vote kind, so that two votes of different kinds by an honest validator cannot be presented as a double sign")
